@@ -189,10 +189,12 @@ func buildBatchWorld(root string, days int) *batchWorld {
 	f5 := mk("p1", "5", "F5", "001", "loam12", "SM", "")
 	bad := mk("p1", "4", "F1", "004", "loam12", "SM", "")
 	bad.Soil.Hor = []proj.Horizon{{Tex: "XX9", Lower: 5, BD: 3, Corg: 1, CN: 10}}
+	bad2 := mk("p1", "6", "F1", "006", "loam12", "SM", "")
+	bad2.Soil.Hor = []proj.Horizon{{Tex: "SL3", Lower: 3, BD: 3, Corg: 1, CN: 10, FC: 30, WP: 12, PS: 44}, {Tex: "QQ7", Lower: 8, BD: 3, Corg: 0.5, CN: 10, FC: 28, WP: 13, PS: 42}}
 	d := func(off int) string { return proj.DateStr("DateDElong", proj.D(isoAdd(start, off))) }
 	a.Files = map[string]string{
-		"poly_p1.txt": polyHdr + "1 001 F1    99 99 0 x\n2 002 F2    99 99 0 x\n3 001 FX    99 99 0 x\n4 004 F1    99 99 0 x\n5 001 F5    99 99 0 x\nend\n",
-		"soil_p1.csv": a.SoilCSV() + rows(b.SoilCSV()) + rows(bad.SoilCSV()),
+		"poly_p1.txt": polyHdr + "1 001 F1    99 99 0 x\n2 002 F2    99 99 0 x\n3 001 FX    99 99 0 x\n4 004 F1    99 99 0 x\n5 001 F5    99 99 0 x\n6 006 F1    99 99 0 x\nend\n",
+		"soil_p1.csv": strings.TrimSuffix(a.SoilCSV()+rows(b.SoilCSV())+rows(bad.SoilCSV())+rows(bad2.SoilCSV())+soilPadding(850), "\n"),
 		"crop_p1.txt": a.RotationTxt() + rows(b.RotationTxt()) + rows(f5.RotationTxt()),
 		"fert_p1.txt": fmt.Sprintf("Field_ID  N   Frt date\n%-9s 40 KAS  %s\n%-9s 40 KAS  %s\nend\n", "F1", d(1), "F2", d(1)),
 		"til_p1.txt":  fmt.Sprintf("Field_ID  Ti Typ date\n          cm\n%-9s 20 1   %s\nend\n", "F5", d(2)),
@@ -235,9 +237,19 @@ func buildBatchWorld(root string, days int) *batchWorld {
 		"Ffield": "project=p1 plotNr=3 fcode=W parameter=par poligonID=H",
 		"Ftex":   "project=p1 plotNr=4 fcode=W parameter=par poligonID=I",
 		"Ftill":  "project=p1 plotNr=5 fcode=W parameter=par poligonID=J",
+		"Ftex2":  "project=p1 plotNr=6 fcode=W parameter=par poligonID=M",
 		"Fptf":   "project=p3 plotNr=1 fcode=W parameter=par poligonID=K",
 		"Fgap":   "project=p2 plotNr=1 fcode=WG parameter=par poligonID=L",
 		"Fargs":  "plotNr=1 fcode=W",
 	}}
 	return w
+}
+
+// soilPadding: n further soil profiles (ids 100..) that no plot uses; they make the shared soil file larger than 64 KiB.
+func soilPadding(n int) string {
+	var b strings.Builder
+	for i := 0; i < n; i++ {
+		fmt.Fprintf(&b, "%03d,1.25,SL4,03,3,00,10,00,12,02,,,,,,,20,0,99\n%03d,0.5,LT3,12,4,00,10,00,,,,,,,,,20,0,\n", 100+i, 100+i)
+	}
+	return b.String()
 }
